@@ -96,7 +96,8 @@ def run(ctx):
         failures += fb
         tinv.update(tinvb)
         ctx.log("traces validated: %d rejected" % len(failures))
-        selftest = selftests_c09(ctx, traces)
+        bad = {id(t) for t, _ in failures}
+        selftest = selftests_c09(ctx, [t for t in traces if id(t) not in bad])
         ctx.log("self-tests done")
         mc = mux.collect_mc(futs, kf)
         ctx.log("model checking done")
@@ -120,8 +121,17 @@ def run(ctx):
             sig = "C09:accounting:%s:%s" % (inv, cls)
             what = "run of class '%s' violates %s at event %s" % (cls, inv, json.dumps(f["event"]))
         else:
-            sig = "C09:trace-rejected:%s:%s" % (cls, f["event"].get("e"))
-            what = "run of class '%s' (%d callers) is not a behaviour of ClientMux at event %s" % (cls, cfg["k"], json.dumps(f["event"]))
+            ev = f["event"]
+            sig = "C09:trace-rejected:%s:%s" % (cls, ev.get("e"))
+            what = "run of class '%s' (%d callers) is not a behaviour of ClientMux at event %s" % (cls, cfg["k"], json.dumps(ev))
+            if ev.get("e") == "UnregBegin" and ev.get("k") == "timeout":
+                c = ev["c"]
+                t0 = [e["t"] for e in t if e["e"] == "CallStart" and e["c"] == c][0]
+                if ev["t"] < t0 + cfg["to"][c - 1]:
+                    sig = "C09:timeout-before-effective-deadline:%s" % cfg["modes"][c - 1]
+                    what = ("a call whose effective deadline is %d ms (%s; configured timeout %d ms) was ended with a timeout error after %d ms"
+                            % (cfg["to"][c - 1], {"ctx": "context deadline", "call": "per-call timeout", "cfg": "configured timeout"}[cfg["modes"][c - 1]],
+                               cfg["cfgto"], ev["t"] - t0))
         ctx.violate(sig, what, mux.describe(t, f))
     # a deadline overrun counts only if the same scenario overruns in three further runs
     rerun_log = {}
